@@ -54,6 +54,107 @@ let run_lr parts =
       (String.concat " " (List.filter_map (fun t -> if lr_done !s (t + 1) then None else Some (string_of_int t)) (List.init nt (fun i -> i))))
   | _ -> print_endline "ERR"
 
+(* ---------------- extension H (DM): qdqueue micro-step machine (CQueues/DqMicro.v) ----------------
+   DM cap ns | alls0 ; alls1 ; ... | nbrs0 ; nbrs1 ; ... | <shep>: ops | <shep>: ops ... | schedule
+   ops: e<v>, t<there>,<v>, d.  Prints exactly the grant / F lines of the harness' DM mode (see harness/c/c15_queues.c). *)
+let split_on c s = List.map String.trim (String.split_on_char c s)
+let ints s = List.map int_of_string (words s)
+let dm_op w = match w.[0] with
+  | 'e' -> DEnq (suffix w)
+  | 'd' -> DDeq
+  | 't' -> (match String.split_on_char ',' (String.sub w 1 (String.length w - 1)) with
+            | [a; b] -> DEnqThere (nat_of_int (int_of_string a), n_of_int (int_of_string b))
+            | _ -> failwith "op t")
+  | _ -> failwith "op"
+let dm_res = function DInt n -> "i" ^ string_of_int (int_of_n n) | DPtr None -> "p0" | DPtr (Some v) -> "p" ^ string_of_int (int_of_n v)
+let dm_kind = function
+  | KLfEmpty -> "LFEMPTY" | KLfEnq -> "LFENQ" | KLfDeq -> "LFDEQ" | KIncr -> "INCR" | KCas -> "CASV" | KCasP -> "CASP"
+  | KLock -> "LOCK" | KUnlock -> "UNLOCK" | DKEnd r -> "END " ^ dm_res r
+let dm_done s t = match List.nth_opt s.dm_tasks t with Some k -> k.k_pc = PIdle && k.k_ops = [] | None -> true
+let opt_idx = function None -> "-" | Some i -> string_of_int (int_of_nat i)
+let dm_dump s ns =
+  String.concat " | " (List.init ns (fun i ->
+    let ni = nat_of_int i in
+    let sp l = String.concat "" (List.map (fun x -> " " ^ x) l) in
+    Printf.sprintf "q%s ; lc %s ; ai %d ac %d ; h%s ; e%s"
+      (sp (List.map (fun x -> string_of_int (int_of_n x)) (dm_contents s ni)))
+      (opt_idx (dm_last_consumed s ni)) (int_of_n (dm_last_ad_issued s ni)) (int_of_n (dm_last_ad_consumed s ni))
+      (sp (List.map (fun x -> string_of_int (int_of_nat x)) (dm_heap_chain s ni)))
+      (sp (List.map (fun e -> Printf.sprintf "%d:%d:%s:%s" (if e.e_inheap then 1 else 0) (int_of_n e.e_gen) (opt_idx e.e_prev) (opt_idx e.e_next))
+             (getq s ni).q_heap))))
+(* statistics only (not compared): the distinct pc transitions "A>B" the model took, found by re-walking a grant with dm_step *)
+let pc_name = function
+  | PIdle -> "Idle" | PCrash _ -> "Crash" | PEnqEmpty _ -> "EnqEmpty" | PEnqPut _ -> "EnqPut" | PEnqLdIssued _ -> "EnqLdIssued"
+  | PEnqLdConsumed _ -> "EnqLdConsumed" | PEnqIncr _ -> "EnqIncr" | PEnqRet -> "EnqRet" | PPushLock _ -> "PushLock"
+  | PPushCrit _ -> "PushCrit" | PPushUnlock _ -> "PushUnlock" | PDeqOwn -> "DeqOwn" | PDeqStRet _ -> "DeqStRet" | PDeqStNull -> "DeqStNull"
+  | PPopPre -> "PopPre" | PPopLock -> "PopLock" | PPopCrit -> "PopCrit" | PPopUnlockEmpty -> "PopUnlockEmpty" | PPopUnlock _ -> "PopUnlock"
+  | PDeqLdLc _ -> "DeqLdLc" | PDeqLdConsumed _ -> "DeqLdConsumed" | PDeqCas _ -> "DeqCas" | PDeqSteal _ -> "DeqSteal" | PDeqCasP _ -> "DeqCasP"
+  | PDeqRLdLc _ -> "DeqRLdLc" | PDeqRDeq _ -> "DeqRDeq" | PDeqLcDeq _ -> "DeqLcDeq" | PDeqEmptyChk _ -> "DeqEmptyChk" | PDeqRetNull -> "DeqRetNull"
+let dm_walk tbl s t =
+  let rec go s fuel =
+    if fuel > 0 then
+      match dm_step s t with
+      | None -> ()
+      | Some (s', r) ->
+        let a = dm_pc_of s t and b = dm_pc_of s' t in
+        Hashtbl.replace tbl (pc_name a ^ ">" ^ pc_name b) ();
+        (match a, b with
+         | PPushCrit (h, i, g, _), PPushUnlock _ ->      (* which arm of qdqueue_adheap_push's critical section *)
+           let q = getq s h and q' = getq s' h in
+           let e = List.nth q.q_heap (int_of_nat i) in
+           let arm = if q' = q then "noop" else if e.e_inheap then "already" else
+               (match q.q_first with None -> "first" | Some f -> if int_of_nat i < int_of_nat f then "before" else if int_of_nat f < int_of_nat i then "after" else "wasfirst") in
+           Hashtbl.replace tbl ("push:" ^ arm ^ (if g = N0 then "0" else "")) ()
+         | _ -> ());
+        if r = None && dm_sp_kind b = None then go s' (fuel - 1) in
+  go s 4096
+let run_dm parts =
+  match parts with
+  | hdr :: alls :: nbrs :: rest when List.length rest >= 2 ->
+    let cap, ns = (match words hdr with [_; c; n] -> int_of_string c, int_of_string n | _ -> failwith "hdr") in
+    let lists p = List.map (fun l -> List.map nat_of_int (ints l)) (split_on ';' p) in
+    let alls = lists alls and nbrs = lists nbrs in
+    let nt = List.length rest - 1 in
+    let sched = List.nth rest nt in
+    let progs = List.map (fun p -> match String.index_opt p ':' with
+        | Some i -> (nat_of_int (int_of_string (String.trim (String.sub p 0 i))),
+                     List.map dm_op (words (String.sub p (i + 1) (String.length p - i - 1))))
+        | None -> failwith "task") (List.filteri (fun i _ -> i < nt) rest) in
+    if List.length alls <> ns || List.length nbrs <> ns || not (dm_cfg_ok (nat_of_int ns) alls nbrs) then print_endline "F CFGBAD"
+    else begin
+      let s = ref (dm_init (nat_of_int ns) alls nbrs (hints_create (nat_of_int ns)) progs) in
+      let tbl = Hashtbl.create 64 in
+      let grant t =
+        if dm_done !s t then Printf.printf "g %d - | %s\n" t (dm_dump !s ns)
+        else begin
+          dm_walk tbl !s (nat_of_int t);
+          let (s', k) = dm_run_to_sp (nat_of_int 4096) !s (nat_of_int t) in
+          let what = match k with
+            | Some (DKEnd r) -> "END " ^ dm_res r
+            | Some k -> dm_kind k ^ " " ^ (match dm_sp_target s' (nat_of_int t) with Some i -> string_of_int (int_of_nat i) | None -> "-1")
+            | None -> (match dm_pc_of s' (nat_of_int t) with
+                       | PCrash w -> "CRASH" ^ string_of_int (int_of_nat w)
+                       | PPushLock (_, _, _, _) | PPopLock -> if s' == !s || dm_step !s (nat_of_int t) = None then "BLOCKED" else "FUEL"
+                       | _ -> "FUEL") in
+          s := s';
+          Printf.printf "g %d %s | %s\n" t what (dm_dump !s ns)
+        end in
+      String.iter (fun c -> let t = Char.code c - 48 in if t >= 0 && t < nt then grant t) sched;
+      let extra = ref 0 in
+      let progress = ref true in
+      while !progress && !extra < cap do
+        progress := false;
+        for t = 0 to nt - 1 do
+          if not (dm_done !s t) && !extra < cap then (grant t; incr extra; progress := true)
+        done
+      done;
+      Printf.printf "P %s\n" (String.concat " " (List.sort compare (Hashtbl.fold (fun k () l -> k :: l) tbl [])));
+      Printf.printf "F | %s\n"
+        (String.concat " " (List.filter_map (fun t -> if dm_done !s t then None else Some (string_of_int t)) (List.init nt (fun i -> i))))
+    end
+  | _ -> print_endline "ERR"
+(* ---------------- end extension H (DM) ---------------- *)
+
 let () =
   try
     while true do
@@ -61,6 +162,7 @@ let () =
       let parts = split_bar line in
       (match parts with
        | hdr :: _ when String.length hdr >= 2 && String.sub hdr 0 2 = "LR" -> run_lr parts
+       | hdr :: _ when String.length hdr >= 2 && String.sub hdr 0 2 = "DM" -> (try run_dm parts with Failure m -> print_endline ("F ERR " ^ m))     (* extension H (DM) *)
        | _ -> print_endline "ERR");
       flush stdout
     done
